@@ -416,7 +416,7 @@ fn gen_topk(rng: &mut Rng, tier: Tier, cases: &mut Vec<Case>) {
     // the threshold, signed item types in turn
     let maxlen_s = match tier {
         Tier::Quick => 4,
-        Tier::Thorough => 6,
+        Tier::Thorough => 5,
     };
     for len in 0..=maxlen_s {
         let mut xs = vec![-2i128; len];
